@@ -98,6 +98,7 @@ def _shared(kind):
         run = SHARED_TARGET[0]
         if run is not None:
             run.notified(kind, 9, api)
+        return {"handled": True}
     shared_listener.__name__ = "shared_listener_" + kind
     return shared_listener
 
@@ -111,6 +112,8 @@ class _Listener:
 
     def on_notification(self, api):
         self.run.notified(self.kind, self.j, api)
+        # the callback type is Callable[[...], Any]: applications may return something (a ticket, the id, True)
+        return [None, api.uuid or "ticket", True][self.j % 3]
 
 
 class Run:
